@@ -2,6 +2,8 @@ PROP = {
     "regen_files": ["GenGuards.v", "GenDeleg.v", "GenSigs.v"],
     "num": 2,
     "runs": [{"tag": "c02", "bin": "c02"},
+             # optimised build of the same cases: no debug assertions, no overflow checks, inlined unsafe paths
+             {"tag": "c02rel", "bin": "c02", "profile": "release"},
              # slices of zero-sized elements whose length agrees with N only modulo 2^32 (direct oracle:
              # the list model cannot hold 2^32 cells)
              {"tag": "c02huge", "bin": "c02", "args": ["--huge"], "model": False}],
